@@ -162,7 +162,23 @@ def run(ctx):
             ctx.violation("GUARD", f"{g.qualname} / GUARD / keep-test counts occupied columns", where,
                           f"the keep-test counts non-zero components of one row only ({T.show(NZ)[:120]}): value-dependent, not topological")
         else:
-            raise AnalysisError(f"{where}: column-occupancy count not understood: {T.show(NZ)[:200]}")
+            # decidable sub-case: a polynomial in the two rows.  It measures 'the pair is non-zero' only if it cannot vanish while a
+            # component is non-zero: a linear form a*x + b*y vanishes on a line, a product x*y on the axes.
+            arg = NZ[2][0] if NZ[0] == "call" and NZ[2] else None
+            bad = None
+            if arg is not None and arg[0] == "poly":
+                atoms = {a for m, c in arg[1] for a, e in m}
+                if atoms <= {rx, ry}:
+                    degs = [sum(e for a, e in m) for m, c in arg[1]]
+                    if all(d == 1 for d in degs):
+                        bad = "a linear combination of the x- and y-row vanishes whenever the two components cancel (e.g. an exactly anti-diagonal tangent (a, -a))"
+                    elif len(arg[1]) == 1 and len(arg[1][0][0]) == 2:
+                        bad = "the product of the x- and y-row vanishes whenever one component is exactly 0 (axis-parallel tangents)"
+            if bad:
+                ctx.violation("GUARD", f"{g.qualname} / GUARD / keep-test counts occupied columns", where,
+                              f"the keep-test counts non-zero entries of {T.show(T.alpha(arg))[:100]}: {bad}; it must count interfaces (columns with a non-zero pair)")
+            else:
+                raise AnalysisError(f"{where}: column-occupancy count not understood: {T.show(NZ)[:200]}")
         want = {T.ige(NZ, 3), T.b_or(T.b_not(opt), T.b_not(T.ige(NZ, 4)))}
         ctx.check(conds == want, "GUARD", f"{g.qualname} / GUARD / kept iff count >= 3 and (count < 4 or not ignore_four)", where,
                   "guard = (n >= 3) and (not ignore_four or n < 4)",
@@ -418,6 +434,8 @@ def run(ctx):
 
 _P, _E, _V = "forsys/fmatrix.py", "forsys/edge.py", "forsys/virtual_edges.py"
 PINNED = [
+    ("keep-test on the sum of the rows", _P, "non_zero = np.count_nonzero((row_x != 0) | (row_y != 0))", "non_zero = np.count_nonzero(row_x + row_y)"),
+    ("keep-test on the product of the rows", _P, "non_zero = np.count_nonzero((row_x != 0) | (row_y != 0))", "non_zero = np.count_nonzero(row_x * row_y)"),
     ("versor components swapped in the rows", _P, "                    arrx[pos] = versor[0]\n                    arry[pos] = versor[1]", "                    arrx[pos] = versor[1]\n                    arry[pos] = versor[0]"),
     ("column looked up with another interface", _P, "pos = ve.eid_from_vertex(self.big_edges_to_use, big_edge.get_vertices_ids())", "pos = ve.eid_from_vertex(self.big_edges_to_use, vertex_big_edges[0].get_vertices_ids())"),
     ("column searched in the frame's list instead of the used list", _P, "pos = ve.eid_from_vertex(self.big_edges_to_use, big_edge.get_vertices_ids())", "pos = ve.eid_from_vertex(self.frame.internal_big_edges_vertices, big_edge.get_vertices_ids())"),
